@@ -47,7 +47,11 @@ MetaEq(a, b) == \/ b[1] = "x"
                 \/ /\ a[1] = b[1]
                    /\ IF a[1] = "n" THEN FClose(a[2], b[2], FDec("1e-13"), FZero) ELSE a[2] = b[2]
 Unrepresentable == {k \in DOMAIN metav : metav[k][1] = "x"}
-MetaKeysEq(onDisk, inMem) == onDisk \subseteq inMem /\ inMem \ onDisk \subseteq Unrepresentable
+(* C17 speaks about the header values OF THE STAGES (the integral keywords of the boundary table).  Any other keyword (provenance a  *)
+(* maintainer adds between two stages without a rewrite of its own) reaches the file with the next rewrite: it may lag, it may not    *)
+(* be invented (a keyword on disk is a keyword of the table, with the table's value).                                                 *)
+StageKeys == OptMetaKeys \cup RadMetaKeys
+MetaKeysEq(onDisk, inMem) == onDisk \subseteq inMem /\ inMem \ onDisk \subseteq (Unrepresentable \cup (inMem \ StageKeys))
 
 SeqOfFcn(f, names) == [i \in 1..Len(names) |-> f[names[i]]]
 
